@@ -403,6 +403,15 @@ def generate(tier, seed, ctx):
         if g % 2 == 0:
             R.append("c19.mean %s" % lst(x)); ctx["groups"][len(R) - 1] = (g, "wavg", "mean", c, s, n)
             R.append("c19.variance %s" % lst(x)); ctx["groups"][len(R) - 1] = (g, "wavg", "var", c, s, n)
+    # too short a data list (fix 67d359e): no point for the mean/median, fewer than two for variance, standard deviation,
+    # weighted average -> diagnostic; one point is still a valid request for the mean and the median
+    for nm in ("mean", "median", "variance", "stddev"):
+        R.append("c19.%s 0" % nm)
+        for v in (0.0, -2.5, 1e300):
+            R.append("c19.%s 1 %s" % (nm, hx(v)))
+    R.append("c19.wavg 0")
+    for v, w in ((1.0, 1.0), (-3.5, 2.0), (0.0, 0.0)):
+        R.append("c19.wavg 1 %s %s" % (hx(v), hx(w)))
     # --- DataPoint ordering operators and their use by std::sort / std::count (coverage extension) -----------------
     rng2 = random.Random(seed * 15485863 + 1919)
     for k in range(300 if thorough else 100):
@@ -461,9 +470,11 @@ def compare(rq, impl, model, ctx):
     if op == "c19.logspace":
         return oracle_logspace(a, impl, ctx)
     if op == "c19.stddev":
+        if tag(model) == "err":          # fewer than two points: must stop with a diagnostic (std_outcome judged it)
+            ctx["nontrivial"].add((op, "guard", a[0]))
+            return fs
         if tag(impl) != "ok":
-            return [fail("prop", "Standard_Deviation crashed", impl)]
-        idx = ctx["reqs"].index(rq) if False else None
+            return [fail("prop", "Standard_Deviation crashed or stopped on a data set of two or more points", impl)]
         _record(ctx, rq, impl)
         return []
     if op in ("c19.range1", "c19.listseq2", "c19.transpose2"):
